@@ -866,13 +866,18 @@ func (db *DB) Drop() (err error) {
 	return os.RemoveAll(db.root)
 }
 
-// DeleteAll deletes all Objects of the same type and commit changes
+// DeleteAll deletes all Objects of the same type and commit changes.
+// Objects are listed and deleted in the same critical section: a
+// concurrent call happens either before or after the whole deletion.
 func (db *DB) DeleteAll(of Object) (err error) {
+	db.Lock()
+	defer db.Unlock()
+
 	var it *iterator
-	if it, err = db.Iterator(of); err != nil {
+	if it, err = db.iterator(of); err != nil {
 		return
 	}
-	return db.DeleteObjects(it)
+	return db.deleteObjects(it)
 }
 
 // DeleteObjects deletes Objects from an Iterator and commit changes.
@@ -881,6 +886,11 @@ func (db *DB) DeleteObjects(from *iterator) (err error) {
 	db.Lock()
 	defer db.Unlock()
 
+	return db.deleteObjects(from)
+}
+
+// deleteObjects must be called with db locked
+func (db *DB) deleteObjects(from *iterator) (err error) {
 	var o Object
 
 	defer db.commit(from.object())
